@@ -54,7 +54,9 @@ where
         let a_base2k: usize = a.base2k().as_usize();
         let res_base2k: usize = res.base2k().as_usize();
         let cnv_offset = a.size().max(b_size);
-        let res_size: usize = (res.size() * res_base2k).div_ceil(a_base2k);
+        // The op carves an accumulator of a.size() + b.len() - cnv_offset_hi limbs, whatever the
+        // result layout: budget its worst case (cnv_offset_hi = 0).
+        let res_size: usize = ((res.size() * res_base2k).div_ceil(a_base2k)).max(a.size() + b_size);
         let lvl_0: usize = self.bytes_of_vec_znx_big(1, res_size);
         let lvl_1_cnv: usize = self.cnv_by_const_apply_tmp_bytes(cnv_offset, res_size, a.size(), b_size);
         let lvl_1_norm: usize = self.vec_znx_big_normalize_tmp_bytes();
@@ -169,8 +171,14 @@ where
             .cnv_prepare_left_tmp_bytes(a_size, a_size)
             .max(self.cnv_prepare_right_tmp_bytes(b_size, b_size));
 
-        let res_dft_size =
-            normalize_input_limb_bound_worst_case(a_size + b_size, res.size(), res.base2k().as_usize(), ab_base2k.as_usize());
+        // glwe_mul_plain{,_assign} carve a.size() + b.size() - cnv_offset_hi limbs without applying the
+        // normalisation bound: budget the worst case (cnv_offset_hi = 0).
+        let res_dft_size: usize = (a_size + b_size).max(normalize_input_limb_bound_worst_case(
+            a_size + b_size,
+            res.size(),
+            res.base2k().as_usize(),
+            ab_base2k.as_usize(),
+        ));
         let lvl_2_cnv_apply: usize = self.cnv_apply_dft_tmp_bytes(cnv_offset, res_dft_size, a_size, b_size);
 
         let lvl_2_res_dft: usize = self.bytes_of_vec_znx_dft(1, res_dft_size);
